@@ -31,6 +31,7 @@ type fileLine struct {
 	Full    Outcome       `json:"full"`    // decode of the complete file
 	FullPos [][]int       `json:"fullpos"`
 	PosOk   bool          `json:"posok"`
+	Rk      int           `json:"rk"` // reader kind the decoders were handed (ReaderKinds)
 }
 
 type cutLine struct {
@@ -118,7 +119,7 @@ func groupAt(l fileLine, k int) string {
 }
 
 func runJob(j job) ([]interface{}, error) {
-	d := &decoder{}
+	d := &decoder{rk: j.line.Rk}
 	defer d.close()
 	l := j.line
 	digest := l.Opaque
@@ -190,6 +191,12 @@ func runJob(j job) ([]interface{}, error) {
 func runJobs(jobs []job, out string, par int) error {
 	if par < 1 {
 		par = 1
+	}
+	for i := range jobs {
+		jobs[i].line.Rk = i % ReaderKinds
+		if PinRk >= 0 {
+			jobs[i].line.Rk = PinRk
+		}
 	}
 	res := make([][]interface{}, len(jobs))
 	errs := make([]error, len(jobs))
